@@ -27,7 +27,7 @@ def grid_jobs(ctx, test, configs, shards, budget, extra_env=None, prop=None):
 E1_SCENARIOS_QUICK = [
     "S1-put-get-get", "S2-ac-overwrite", "S3-evict-vs-read", "S4-corrupt-get-get",
     "S5-corrupt-get-put", "S6-corrupt-get-evict-reput", "S7-three-puts-tight", "S10-contains-vs-overwrite",
-    "S11-commit-refused-by-reservation", "S12-get-vs-two-overwrites",
+    "S11-commit-refused-by-reservation", "S12-get-vs-two-overwrites", "S13-get-vs-reupload-other-format",
 ]
 ZSTD_ONLY = {"S4-corrupt-get-get", "S5-corrupt-get-put", "S6-corrupt-get-evict-reput"}
 
@@ -102,8 +102,10 @@ def check_C07(ctx):
     th = ctx.thorough()
     jobs = e1_jobs(ctx, "C07", E1_SCENARIOS_QUICK + ["S9-findmissing-vs-puts"], 3 if th else 2, 4 if th else 1, 1500 if th else 300)
     jobs += race_jobs(ctx, 200 if th else 25)
+    for mode in ("zstd", "uncompressed"):
+        jobs.append(Job(ctx.bin(GRID), "TestC07Pools", name="C07:pools/" + mode, timeout=1200, env={"VERIF_PARAM_MODE": mode}))
     return dict(level="model_checking", jobs=jobs,
-                rule="stateless DFS over all schedules (preemption-bounded) of each scenario on the real disk cache under the controlled scheduler; an evaluation is one complete execution; distinct = distinct observed operation-result histories per scenario",
+                rule="server level: after every class of request outcome (18 upload classes: 3 compressed paths x {ok, wrong hash, garbage, truncated, trailing bytes, abort}; 10 download classes) the process-wide zstd encoder/decoder pools hold no object twice (one P, GC off, 64 draws pairwise distinct); stateless DFS over all schedules (preemption-bounded) of each scenario on the real disk cache under the controlled scheduler; an evaluation is one complete execution; distinct = distinct observed operation-result histories per scenario",
                 assumptions=[
                     "scheduling points: index mutex acquire, file-namespace operations, harness read points, background remover receive; code between two points of a thread is thread-local (checked separately by the free-running -race pass)",
                     "sequentially consistent interleavings only; preemption bound as reported in parts.*.extra.bound",
@@ -124,24 +126,24 @@ E2_ASSUME = [
 def check_C03(ctx):
     th = ctx.thorough()
     jobs = e2lru_jobs(ctx, "C03", 6 if th else 4, 1500 if th else 300)
-    jobs += e2cache_jobs(ctx, "C03", 4 if th else 3, 1500 if th else 300, 8 if th else 2)
+    jobs += e2cache_jobs(ctx, "C03", 4 if th else 3, 1500 if th else 300, 8 if th else 2, proxies=("0", "1", "2"))
     jobs += e1_jobs(ctx, "C03", ["S3-evict-vs-read", "S5-corrupt-get-put", "S7-three-puts-tight", "S11-commit-refused-by-reservation"], 3 if th else 2, 2 if th else 1, 1200 if th else 300, oracle="C03@")
     return dict(level="model_checking", jobs=jobs,
-                rule="explicit-state BFS over operation sequences on the real SizedLRU and on a real disk cache (accounting equation, reserved==0, Stats()==index on every transition) plus all preemption-bounded schedules of three concurrent scenarios (equation at every scheduling point); distinct = distinct canonical states / distinct observed histories; environment deviation in the alphabet: uploads whose file cannot be created (os.OpenFile fails, injected through the os shim)",
+                rule="explicit-state BFS over operation sequences on the real SizedLRU and on a real disk cache (accounting equation, reserved==0, Stats()==index on every transition) plus all preemption-bounded schedules of three concurrent scenarios (equation at every scheduling point); distinct = distinct canonical states / distinct observed histories; environment deviation in the alphabet: uploads whose file cannot be created (os.OpenFile fails, injected through the os shim); E2-cache also from a preloaded backend (blobs that exist only in the backend)",
                 assumptions=E2_ASSUME + E1_ASSUME)
 
 
 def check_C04(ctx):
     th = ctx.thorough()
-    jobs = e2cache_jobs(ctx, "C04", 4 if th else 3, 1500 if th else 300, 8 if th else 2)
-    jobs += e1_jobs(ctx, "C04", ["S2-ac-overwrite", "S3-evict-vs-read", "S6-corrupt-get-evict-reput", "S7-three-puts-tight", "S11-commit-refused-by-reservation", "S12-get-vs-two-overwrites"], 3 if th else 2, 2 if th else 1, 1200 if th else 300, oracle="C04@")
+    jobs = e2cache_jobs(ctx, "C04", 4 if th else 3, 1500 if th else 300, 8 if th else 2, proxies=("0", "1", "2"))
+    jobs += e1_jobs(ctx, "C04", ["S2-ac-overwrite", "S3-evict-vs-read", "S6-corrupt-get-evict-reput", "S7-three-puts-tight", "S11-commit-refused-by-reservation", "S12-get-vs-two-overwrites", "S13-get-vs-reupload-other-format"], 3 if th else 2, 2 if th else 1, 1200 if th else 300, oracle="C04@")
     b = ctx.bin(DISK)
     for sh in range(8):
         jobs.append(Job(b, "TestVfC04Restart", name="E2-restart#%d" % sh, timeout=(1500 if th else 300) + 60, env={
             "VERIF_PARAM_PROPERTY": "C04", "VERIF_PARAM_DEPTH": "3" if th else "2", "VERIF_PARAM_CONFIG": "shard%d" % sh,
             "VERIF_SHARD": "%d/8" % sh, "VERIF_BUDGET_S": str(1500 if th else 300), "GOMAXPROCS": "2"}))
     return dict(level="model_checking", jobs=jobs,
-                rule="from non-initial states: four earlier lives of the directory written under either storage mode, restarted under either storage mode, then BFS (depth 2 quick / 3 thorough) over the same alphabet with directory==index, the accounting equation and reserved==0 after every transition; explicit-state BFS over operation sequences (incl. uploads failing by hash, short reader, reader error, trailing byte, oversize, and faulty backend fetches) on a real disk cache: directory listing == index after every transition once deletions drained; plus the same at quiescence of every explored schedule of four concurrent scenarios",
+                rule="from non-initial states: four earlier lives of the directory written under either storage mode, restarted under either storage mode, then BFS (depth 2 quick / 3 thorough) over the same alphabet with directory==index, the accounting equation and reserved==0 after every transition; explicit-state BFS over operation sequences (incl. uploads failing by hash, short reader, reader error, trailing byte, oversize, and faulty backend fetches) on a real disk cache: directory listing == index after every transition once deletions drained; plus the same at quiescence of every explored schedule of four concurrent scenarios; E2-cache also from a preloaded backend (blobs that exist only in the backend)",
                 assumptions=E2_ASSUME + E1_ASSUME)
 
 
@@ -178,16 +180,18 @@ def check_C02(ctx):
     for r in CONFIGS:
         jobs.append(Job(b, "TestC02Fmt2", name="C02fmt2:%s" % r, timeout=budget + 120, env={"VERIF_PARAM_READER": r, "GOMAXPROCS": "4"}))
     jobs.append(Job(b, "TestC02Empty", name="C02empty", timeout=300))
+    # concurrency x storage-mode dimension of C02: a blob of the other format read while it is re-uploaded
+    jobs += e1_jobs(ctx, "C02", ["S13-get-vs-reupload-other-format"], 3 if th else 2, 2 if th else 1, 1200 if th else 300)
     for cfg in CONFIGS:
         jobs.append(Job(b, "TestC02BatchLists", name="C02:batchlists/" + cfg, timeout=2400, env={"VERIF_PARAM_CONFIG": cfg, "GOMAXPROCS": "4"}))
     return dict(level="exploration", jobs=jobs,
-                rule="(i) full product writer (mode,impl) x reader (mode,impl, restarted) x blob size on 4 KiB / k MiB edges x content kind x read path x offset class x read_limit class; (ii) files laid out by the independent format writer with 4/8 KiB chunks: every offset 0..n on both ByteStream paths; (iii) the empty blob on every path against an empty cache; multi-digest BatchReadBlobs: every sequence up to length 3 (4 thorough) over {present, second present (1 MiB+3), absent, empty blob, present hash with size+1, previous again}: every response right for the digest it names, every digest answered as often as asked; non-trivial = distinct successful reads whose bytes were compared",
+                rule="(i) full product writer (mode,impl) x reader (mode,impl, restarted) x blob size on 4 KiB / k MiB edges x content kind x read path x offset class x read_limit class; (ii) files laid out by the independent format writer with 4/8 KiB chunks: every offset 0..n on both ByteStream paths; (iii) the empty blob on every path against an empty cache; multi-digest BatchReadBlobs: every sequence up to length 3 (4 thorough) over {present, second present (1 MiB+3), absent, empty blob, present hash with size+1, previous again}: every response right for the digest it names, every digest answered as often as asked; E1 scenario S13 (blob written under the other storage mode in an earlier life of the directory, Get and zstd Get at offset 1 against a re-upload, all schedules up to the preemption bound); non-trivial = distinct successful reads whose bytes were compared",
                 assumptions=["zstd responses are decoded with klauspost/compress and libzstd; both must agree",
                              "in-process servers (httptest recorder / bufconn)",
                              "contents: pseudo-random, zeros, repetitive text; sizes are boundary-chosen"])
 
 
-C08_HISTORIES = ["H1-upload", "H1z-upload-3-chunks", "H2-ac-overwrite", "H3-wrong-hash-cleanup", "H4-evict", "H5-backend-fetch"]
+C08_HISTORIES = ["H1-upload", "H1z-upload-3-chunks", "H2-ac-overwrite", "H3-wrong-hash-cleanup", "H4-evict", "H5-backend-fetch", "H6-ac-large"]
 
 
 def check_C06(ctx):
@@ -226,7 +230,7 @@ def check_C06(ctx):
     if unfixed["errors"] == 0:
         raise V.Broken("Spin finds no violation in the unrepaired model variant: the model cannot express the defect")
     return dict(level="exploration", jobs=jobs, extra_cov=extra,
-                rule="every ActionResult shape of a bounded grammar (0-2 output files each digest-only/inline/empty-blob; output directory with Tree variants incl. children and a nil digest; stdout/stderr digest nil/set/empty) x every assignment of {present, absent, stored with another size} (or {present, absent, backend only} with a backend) to its <=5 (7 thorough) referenced blobs, x gRPC GetActionResult, HTTP GET and HEAD; 25 output files with each single one absent (across the batch of 20); recency after a hit; aliasing: every ordered pair of reference slots naming the same stored blob (hit), the same hash with size+1 / size-1 in either order (miss), the same absent digest (miss); with a backend the alphabet has a fourth class X = held by the backend only and larger than max_proxy_blob_size (not obtainable: miss); non-trivial = distinct (shape, assignment) cells",
+                rule="every ActionResult shape of a bounded grammar (0-2 output files each digest-only/inline/empty-blob; output directory with Tree variants incl. children and a nil digest; stdout/stderr digest nil/set/empty) x every assignment of {present, absent, stored with another size} (or {present, absent, backend only} with a backend) to its <=5 (7 thorough) referenced blobs, x gRPC GetActionResult, HTTP GET and HEAD; 25 output files with each single one absent (across the batch of 20); recency after a hit; aliasing: every ordered pair of reference slots naming the same stored blob (hit), the same hash with size+1 / size-1 in either order (miss), the same absent digest (miss); with a backend the alphabet has a fourth class X = held by the backend only and larger than max_proxy_blob_size (not obtainable: miss); tree-file-fault: the Tree blob indexed but its file removed behind the cache (must be a miss, never an error); non-trivial = distinct (shape, assignment) cells",
                 assumptions=["AC entries are stored directly through the disk layer (UpdateActionResult does not check dependencies either)",
                              "the backend is a scriptable cache.Proxy; the fail-fast join with a backend is additionally model-checked (E5) and its trails replayed"])
 
@@ -374,7 +378,7 @@ def check_C08(ctx):
                                 env={"VERIF_PARAM_HISTORY": h, "VERIF_PARAM_MODE": mode, "VERIF_BUDGET_S": str(budget),
                                      "VERIF_SHARD": "%d/%d" % (sh, shards), "GOMAXPROCS": "2"}))
     return dict(level="fault_enumeration", jobs=jobs,
-                rule="for each history x storage mode before x remover policy: the directory at every scheduling point of the real write path (file-namespace operations, every Read of the uploader's reader or backend stream, before commit, before every background unlink) is a crash image; each is expanded with every torn length of every file written since the previous point and every partial in-place overwrite (chunk-table rewrite); every distinct image is restarted with the real disk.New in both storage modes and every key is read with known/unknown size, plain and zstd; non-trivial = distinct (history, modes, kill point) images that restarted and passed the oracle",
+                rule="for each history x storage mode before x remover policy: the directory at every scheduling point of the real write path (file-namespace operations, every Read of the uploader's reader or backend stream, before commit, before every background unlink) is a crash image; each is expanded with every torn length of every file written since the previous point and every partial in-place overwrite (chunk-table rewrite); every distinct image is restarted with the real disk.New in both storage modes and every key is read with known/unknown size, plain and zstd; history H6: a 100 KiB action-cache value handed over as one in-memory buffer (reader offering WriteTo, as the servers do); every violation is classed as a crash state BETWEEN two file-system steps (empty file / partial value) or INSIDE one write step (power-loss model, beyond the stated crash points); non-trivial = distinct (history, modes, kill point) images that restarted and passed the oracle",
                 assumptions=["process kill, not power loss: bytes written before the kill are on disk in order; torn writes within a file are modelled as prefixes / partial in-place overwrites",
                              "file access and modification times of the image are restored on the restart copy",
                              "histories are sequential; the background remover runs either as late or as early as possible (two policies)"])
